@@ -27,6 +27,7 @@ from harness.ref import dense, tn
 
 ISO_TOL = 1e-9
 PURE_TOL = 1e-10
+ROUND_W = 1e-12  # rounding slack on a discarded weight, relative to |m|_F^2 (eigh of the Gram matrix: ~64*eps*dim)
 INPLACE = {"Truncate", "Apply", "EvolvePair", "EvolveSingle"}
 CREATES = {"New", "Make", "FromAmplitudes", "Add", "Scale", "MPOApply"}
 TRUNCATING = {"Truncate", "Add", "FromAmplitudes", "MPOApply"}
@@ -443,14 +444,20 @@ def evaluate(world: World, op: dict, out: dict, model_post: dict | None) -> list
         nref = float(np.linalg.norm(ref))
         err = float(np.linalg.norm(got - ref))
         if bud is None:  # truncating operation: one `precision` per bond split, observed residual where the cap binds
-            bud = sum(math.sqrt(r["w_act"]) * 1.000001 if r in cap_bound else r["P"] for r in splits)
+            # (the split diagonalises the Gram matrix m^+ m, so singular values below ~1e-6 |m| are not resolved:
+            #  rounding slack 1e-12 |m|^2 on a discarded weight, the same slack C10 grants)
+            bud = sum(math.sqrt(r["w_act"]) * 1.000001 if r in cap_bound else math.sqrt(r["P"] ** 2 + ROUND_W * r["frob2"]) for r in splits)
         budget = bud + 1e-10 * max(1.0, nref)
         F.append({"prop": "C11", "key": None, "what": name, "margin": err / budget})
         if not err <= budget:
             add("C11", f"mps:{name}:result-differs-from-dense", f"{name}: result differs from the dense operation by {err:.3e} > {budget:.3e} (|ref|={nref:.3e}, {len(splits)} splits, {len(cap_bound)} cap-bound)", err / budget)
         if name in TRUNCATING and name != "FromAmplitudes" and not cap_bound and splits:
             # C10 in aggregate: the truncation errors of a canonical sweep are mutually orthogonal
-            granted = sum(r["P"] ** 2 for r in splits) + 1e-12 * max(1.0, nref * nref)
+            granted = sum(r["P"] ** 2 + ROUND_W * r["frob2"] for r in splits) + 1e-12 * max(1.0, nref * nref)
+            s_act = sum(r["w_act"] for r in splits)
+            if err * err > s_act * (1 + 1e-6) + 1e-12 * max(1.0, nref * nref):
+                add("drift", f"{name}:split-not-at-centre", f"{name}: |psi_before-psi_after|^2 = {err*err:.3e} exceeds the sum of the locally discarded weights {s_act:.3e}: "
+                    "the splits were not performed at the orthogonality centre of a canonical object (requirement SplitAtCentre of the model)")
             F.append({"prop": "C10", "key": None, "what": "aggregate-discarded", "margin": err * err / granted})
             if not err * err <= granted:
                 add("C10", f"mps:{name}:discarded-weight-exceeds-precision^2", f"{name}: |psi_before-psi_after|^2 = {err*err:.3e} > {granted:.3e} = #bonds*precision^2 although no cap was binding", err * err / granted)
@@ -485,7 +492,9 @@ def evaluate(world: World, op: dict, out: dict, model_post: dict | None) -> list
         if abs(v - nv) > 1e-9 * max(1.0, nv):
             add("C10", "mps:norm:differs-from-dense-norm", f"norm() = {v} but the represented vector has norm {nv}")
     for r in splits:
-        slack = 1e-12 * max(r["frob2"], 1e-300)
+        slack = ROUND_W * max(r["frob2"], 1e-300)
+        if r["frob2"] > 0 and not (r["kept"] >= r["C"]):
+            F.append({"prop": "C10", "key": None, "what": "rounding:discarded/|m|^2 (slack 1e-12)", "margin": max(r["w_act"] - r["P"] ** 2, 0.0) / r["frob2"] / ROUND_W})
         if r["kept"] > r["C"]:
             add("C10", f"mps:{name}:split-exceeds-max-bond-dim", f"{name}: a split kept {r['kept']} > max_bond_dim {r['C']}")
         if r["kept"] >= r["C"] and r["w_act"] > r["P"] ** 2:
@@ -756,7 +765,7 @@ def insitu_task(task: dict) -> dict:
                     if r["kept"] > C:
                         viol("tdvp:split-exceeds-max-bond-dim", f"split kept {r['kept']} > {C}")
                     if r["kept"] < C:
-                        g = P * P + 1e-12 * max(r["frob2"], 1e-300)
+                        g = P * P + ROUND_W * max(r["frob2"], 1e-300)
                         acc["margins"]["C10:insitu-split-discarded"] = max(acc["margins"].get("C10:insitu-split-discarded", 0.0), r["w_act"] / g)
                         acc["checks"]["C10:insitu-split-discarded"] = acc["checks"].get("C10:insitu-split-discarded", 0) + 1
                         if not r["w_act"] <= g:
